@@ -601,7 +601,15 @@ fn call(name: &str, args: &[E], env: &Env) -> R {
         },
         "sort" | "sort_unique" => match g(0) {
             Some(V::Arr(l)) => {
-                let keyed: Vec<(Option<V>, V)> = l.iter().map(|x| (Some(x.clone()), x.clone())).collect();
+                // "sort and remove duplicates": duplicates are what `=` calls equal (objects regardless of the order of
+                // their members), so they can be removed first; what is left is then ordered
+                let mut firsts: Vec<V> = Vec::new();
+                for x in l.iter() {
+                    if name != "sort_unique" || !firsts.iter().any(|y| veq(y, x)) {
+                        firsts.push(x.clone());
+                    }
+                }
+                let keyed: Vec<(Option<V>, V)> = firsts.iter().map(|x| (Some(x.clone()), x.clone())).collect();
                 let mut s = stable_sort_by(&keyed)?;
                 if name == "sort_unique" {
                     let mut u: Vec<V> = Vec::new();
